@@ -28,7 +28,6 @@ var Controls = []Control{
 	{"C01", "cut-set trim in extractPrefix", "errbase/encode.go", `return prefix\[:len\(prefix\)-2\], Prefix`, `return strings.TrimRight(prefix, ": "), Prefix`, "R-SEP"},
 	{"C01", "multi-cause fallback needs two causes", "errbase/decode.go", `if len\(enc\.MultierrorCauses\) > 0 \{\n\t\tcauses := make`, "if len(enc.MultierrorCauses) > 1 {\n\t\tcauses := make", "R-TREE-RECURSION"},
 	// C02
-	{"C02", "encodeWrapper asks for the family only", "errbase/encode.go", `(encoders\[typeKey\])`, `$1`, ""},
 	{"C02", "wrapper extension dropped", "errbase/encode.go", `details\.ErrorTypeMark\.Extension = getTypeDetails\(err, false /\*onlyFamily\*/\)\n\n\t\tvar payload proto\.Message\n\n\t\t// If we have a manually registered encoder, use that\.\n\t\ttypeKey := TypeKey\(details\.ErrorTypeMark\.FamilyName\)\n\t\tif enc, ok := encoders`, "details.ErrorTypeMark.Extension = getTypeDetails(err, true /*onlyFamily*/)\n\n\t\tvar payload proto.Message\n\n\t\t// If we have a manually registered encoder, use that.\n\t\ttypeKey := TypeKey(details.ErrorTypeMark.FamilyName)\n\t\tif enc, ok := encoders", "R-TYPEKEY-WHO"},
 	{"C02", "mark decoder under the wrong key", "hintdetail/with_detail.go", `RegisterWrapperDecoder\(errbase\.GetTypeKey\(\(\*withDetail\)\(nil\)\)`, `RegisterWrapperDecoder(errbase.GetTypeKey((*withHint)(nil))`, "R-REGTYPE"},
 	// C03
@@ -56,7 +55,7 @@ var Controls = []Control{
 	{"C05", "decoder result returned unchecked", "errbase/decode.go", `genErr := decoder\(ctx, cause, enc\.Message, enc\.Details\.ReportablePayload, payload\)\n\t\tif genErr != nil \{`, "genErr := decoder(ctx, cause, enc.Message, enc.Details.ReportablePayload, payload)\n\t\tif true {", "R-DECODE-NONNIL"},
 	// C06
 	{"C06", "redactable %q accepted", "errbase/format_error.go", `\(!redactableOutput && \(verb == 'x' \|\| verb == 'X' \|\| verb == 'q'\)\)`, `(verb == 'x' || verb == 'X' || verb == 'q')`, "R-VERB-DISPATCH"},
-	{"C06", "zero precision ignored", "errbase/format_error.go", `_, okP := p\.Precision\(\)`, "prec, okP0 := p.Precision()\n\tokP := okP0 \\&\\& prec > 0", ""},
+	{"C06", "zero precision ignored", "errbase/format_error.go", `_, okP := p\.Precision\(\)`, "prec, okP0 := p.Precision()\n\tokP := okP0 \\&\\& prec > 0", "R-VERB-DISPATCH"},
 	{"C06", "plain string relabelled redactable", "errutil/message.go", `prefix: redact\.Sprint\(redact\.Safe\(message\)\),`, `prefix: redact.RedactableString(message),`, "R-TAINT/redactable"},
 	// C07
 	{"C07", "barrier answers Is", "barriers/barriers.go", `func \(e \*barrierErr\) Error\(\) string \{ return e\.smsg\.StripMarkers\(\) \}`, "func (e *barrierErr) Error() string { return e.smsg.StripMarkers() }\nfunc (e *barrierErr) Is(t error) bool { return e.maskedErr == t }", "R-HIDE"},
@@ -92,7 +91,7 @@ var Controls = []Control{
 	{"C13", "As ignores inner multi-cause nodes", "errutil/as.go", `errbase\.UnwrapMulti\(c\)`, `errbase.UnwrapMulti(err)`, "R-WALK-MULTI"},
 	{"C13", "report visitor skips branches", "report/report.go", `\tfor _, e := range errbase\.UnwrapMulti\(err\) \{\n\t\tvisitAllMulti\(e, f\)\n\t\}\n`, "", "R-WALK-MULTI"},
 	// C14
-	{"C14", "Is protocol misspelt", "markers/markers.go", `err\.\(interface\{ Is\(error\) bool \}\)`, `err.(interface{ IsErr(error) bool })`, ""},
+	{"C14", "Is protocol misspelt", "markers/markers.go", `err\.\(interface\{ Is\(error\) bool \}\)`, `err.(interface{ IsErr(error) bool })`, "R-PROTOCOL"},
 	{"C14", "Unwrap deleted", "hintdetail/with_hint.go", `func \(w \*withHint\) Unwrap\(\) error     \{ return w\.cause \}\n`, "", "R-WRAP-DUAL"},
 	{"C14", "Cause forwards to UnwrapOnce", "errutil_api.go", `func Cause\(err error\) error \{ return errbase\.UnwrapAll\(err\) \}`, `func Cause(err error) error { return errbase.UnwrapOnce(err) }`, "R-FORWARD"},
 	// C15
@@ -112,7 +111,7 @@ var Controls = []Control{
 	{"C18", "prefix rewritten in Error()", "errutil/redactable.go", `if l\.prefix == "" \{\n\t\treturn l\.cause\.Error\(\)\n\t\}`, "if l.prefix == \"\" {\n\t\tl.prefix = \"x\"\n\t\treturn l.cause.Error()\n\t}", "R-EFFECT"},
 	// C19
 	{"C19", "hints not de-duplicated", "hintdetail/hintdetail.go", `if _, ok := seen\[hint\]; !ok \{\n\t\t\thints = append\(hints, hint\)\n\t\t\tseen\[hint\] = struct\{\}\{\}\n\t\t\}`, "hints = append(hints, hint)\n\t\tseen[hint] = struct{}{}", "R-DEDUP"},
-	{"C19", "assertion hint lost", "assert/assert.go", `func \(w \*withAssertionFailure\) ErrorHint\(\) string \{\n\treturn AssertionErrorHint \+ stdstrings\.IssueReferral\n\}`, "", "R-HINT-PROVIDERS"},
+	{"C19", "assertion hint lost", "assert/assert.go", `func \(w \*withAssertionFailure\) ErrorHint\(\) string \{\n\treturn AssertionErrorHint \+ stdstrings\.IssueReferral\n\}`, "func (w *withAssertionFailure) errorHintOff() string {\n\treturn AssertionErrorHint + stdstrings.IssueReferral\n}", "R-HINT-PROVIDERS"},
 	{"C19", "hints emitted before descending", "hintdetail/hintdetail.go", `func getAllHintsInternal\(err error, hints \[\]string, seen map\[string\]struct\{\}\) \[\]string \{\n\tif c := errbase\.UnwrapOnce\(err\); c != nil \{\n\t\thints = getAllHintsInternal\(c, hints, seen\)\n\t\}\n(.*?)\treturn hints\n\}`, "func getAllHintsInternal(err error, hints []string, seen map[string]struct{}) []string {\n$1\tif c := errbase.UnwrapOnce(err); c != nil {\n\t\thints = getAllHintsInternal(c, hints, seen)\n\t}\n\treturn hints\n}", "R-ORDER"},
 	// C20
 	{"C20", "a part of the error is encoded", "grpc/middleware/server.go", `enc := errors\.EncodeError\(ctx, err\)`, `enc := errors.EncodeError(ctx, errors.UnwrapAll(err))`, "R-GRPC-FLOW"},
@@ -130,8 +129,8 @@ var Controls = []Control{
 	{"C12", "one variable aliased by every encoded branch", "errbase/encode.go", `\t\tfor i, ee := range causes \{\n\t\t\tee := EncodeError\(ctx, ee\)\n\t\t\tcs\[i\] = &ee\n\t\t\}`, "\t\tvar enc EncodedError\n\t\tfor i, ee := range causes {\n\t\t\tenc = EncodeError(ctx, ee)\n\t\t\tcs[i] = &enc\n\t\t}", "R-LOOP-ALIAS"},
 	{"C13", "one variable aliased by every encoded branch", "errbase/encode.go", `\t\tfor i, ee := range causes \{\n\t\t\tee := EncodeError\(ctx, ee\)\n\t\t\tcs\[i\] = &ee\n\t\t\}`, "\t\tvar enc EncodedError\n\t\tfor i, ee := range causes {\n\t\t\tenc = EncodeError(ctx, ee)\n\t\t\tcs[i] = &enc\n\t\t}", "R-LOOP-ALIAS"},
 	{"C13", "branches encoded through a fresh pointer per iteration", "errbase/encode.go", `\t\tfor i, ee := range causes \{\n\t\t\tee := EncodeError\(ctx, ee\)\n\t\t\tcs\[i\] = &ee\n\t\t\}`, "\t\tfor i := range causes {\n\t\t\tenc := new(EncodedError)\n\t\t\t*enc = EncodeError(ctx, causes[i])\n\t\t\tcs[i] = enc\n\t\t}", CleanVariant},
-	{"C12", "standard library identity for the safe sentinels", "errutil/format_error_special.go", `(import \(\n\t"context"\n)(.*?)markers\.Is\(err, ref\)`, "${1}\tstderrors \"errors\"\n${2}stderrors.Is(err, ref)", "R-STD-IDENTITY"},
-	{"C19", "tags walked with the standard library's Unwrap", "contexttags/contexttags.go", `(import \(\n\t"context"\n)(.*?)err = errbase\.UnwrapOnce\(err\)`, "${1}\tstderrors \"errors\"\n${2}err = stderrors.Unwrap(err)", "R-STD-IDENTITY"},
+	{"C12", "standard library identity for the safe sentinels", "errutil/format_error_special.go", `(import \(\n\t"context"\n)(.*?)markers\.Is\(err, ref\)`, "${1}\tstderrors \"errors\"\n${2}(stderrors.Is(err, ref) || false && markers.Is(err, ref))", "R-STD-IDENTITY"},
+	{"C19", "tags walked with the standard library's Unwrap", "contexttags/contexttags.go", `(import \(\n\t"context"\n)(.*?)for e := err; e != nil; e = errbase\.UnwrapOnce\(e\) \{`, "${1}\tstderrors \"errors\"\n${2}for e := err; e != nil; e = stderrors.Unwrap(e) {\n\t\t_ = errbase.UnwrapOnce", "R-STD-IDENTITY"},
 	{"C10", "wire prefix used as a format by the pkg/errors decoder", "errbase/adapters.go", `return pkgErr\.WithMessage\(cause, msgPrefix\)`, `return pkgErr.WithMessagef(cause, msgPrefix)`, "R-FORMAT-ARG"},
 	{"C01", "wire prefix used as a format by the pkg/errors decoder", "errbase/adapters.go", `return pkgErr\.WithMessage\(cause, msgPrefix\)`, `return pkgErr.WithMessagef(cause, msgPrefix)`, "R-FORMAT-ARG"},
 	{"C06", "legacy barrier decoder trusts the plain message as redactable", "barriers/barriers.go", `func decodeBarrierPrev\(ctx context\.Context, msg string, _ \[\]string, payload proto\.Message\) error \{\n.*?\n\}\n`, "func decodeBarrierPrev(ctx context.Context, msg string, details []string, payload proto.Message) error {\n\treturn decodeBarrier(ctx, msg, details, payload)\n}\n", "R-TAINT/redactable"},
